@@ -107,7 +107,7 @@ let reaction_of applied seen =
     let v = int_of_n e in Some (if v >= 1001 && v <= 1099 then NotApplied e else RejectedCode e)
   | false, None -> None
 
-let op_e2e (words : string list) : string =
+let op_e2e ?(wire = false) (words : string list) : string =
   match words with
   | [] -> "BADCASE"
   | cfgw :: evs ->
@@ -179,15 +179,15 @@ let op_e2e (words : string list) : string =
     if not (rejected_sends_nothing_holds mcalls journal) then flag "rejected_sends_nothing_holds";
     (* a metadata failure whose position the harness could not observe (concurrent callers) may
        pre-empt any later topic error: no verdict to compare then *)
-    List.iter2 (fun hc mc ->
+    if not wire then List.iter2 (fun hc mc ->
       if hc.hc_res <> None && not (hc.hc_res = Some "meta" && hc.hc_merr = None)
          && not (verdict_holds cfg mc hc.hc_merr) then flag "verdict_holds") !calls mcalls;
-    if not (c01_nil_holds cfg mcalls journal mlog) then flag "C01_nil_holds";
-    if not (c01_we_holds cfg mcalls journal) then flag "C01_we_holds";
-    if not (c01_compl_holds cfg mcalls journal mcompl) then flag "C01_compl_holds";
-    if !closed_ret && not (c01_compl_total_holds mcalls mcompl) then flag "C01_compl_total_holds";
+    if not wire && not (c01_nil_holds cfg mcalls journal mlog) then flag "C01_nil_holds";
+    if not wire && not (c01_we_holds cfg mcalls journal) then flag "C01_we_holds";
+    if not wire && not (c01_compl_holds cfg mcalls journal mcompl) then flag "C01_compl_holds";
+    if not wire && !closed_ret && not (c01_compl_total_holds mcalls mcompl) then flag "C01_compl_total_holds";
     if not (c01_no_foreign_holds cfg mlog) then flag "C01_no_foreign_holds";
-    if not (c01_dups_holds cfg journal mlog) then flag "C01_dups_holds";
+    if not wire && not (c01_dups_holds cfg journal mlog) then flag "C01_dups_holds";
     (* the fake's log of each partition is what its applied attempts appended *)
     List.iter (fun (tp, ids) ->
       let j = List.filter (fun a -> tp_eqb a.a_tp tp) journal in
@@ -358,6 +358,20 @@ let eval (op : string) (a : string list) : string =
     hex_of_n (total_size_nohdr (f k) (f v))
   | "wm", [bs; bb; asy; calls] -> op_wm bs bb asy calls
   | "e2e", ws -> op_e2e ws
+  (* wire-level family (real Transport on a wire-level fake): the journal holds only what the
+     broker fully received, not what the client saw, so only the order / limits / log predicates *)
+  | "wire", ws -> op_e2e ~wire:true ws
+  | "cfgd", [a; b; c; d; e; f; g; h] ->
+    let o = { o_batchSize = z_of_hex a; o_batchBytes = z_of_hex b; o_maxAttempts = z_of_hex c;
+              o_batchTimeoutMs = z_of_hex d; o_backoffMinMs = z_of_hex e; o_backoffMaxMs = z_of_hex f;
+              o_readTimeoutMs = z_of_hex g; o_writeTimeoutMs = z_of_hex h } in
+    let cfg = cfg_of_options o false None (fun _ -> false) in
+    (* the config record the LTS runs with is built from the defaulted values *)
+    if int_of_nat cfg.batchSize <> int_of_z (eff_batchSize o) || hex_of_n cfg.batchBytes <> hex_of_z (eff_batchBytes o)
+       || int_of_nat cfg.maxAttempts <> int_of_z (eff_maxAttempts o) then "SPECDIFF"
+    else String.concat ":" (List.map hex_of_z
+      [eff_batchSize o; eff_batchBytes o; eff_maxAttempts o; eff_batchTimeoutMs o; eff_backoffMinMs o;
+       eff_backoffMaxMs o; eff_readTimeoutMs o; eff_writeTimeoutMs o])
   | "f3", [c] -> op_f3 c
   | _ -> "BADCASE"
 
